@@ -749,7 +749,10 @@ impl<T> TooDee<T> {
     {
         assert!(index < self.num_rows);
         let start = index * self.num_cols;
-        let drain = self.data.drain(start..start + self.num_cols);
+        // Move the row to the end of the buffer and drain the tail: the `Vec` then has the
+        // right length - and the array stays valid - even if the `Drain` is leaked.
+        self.data[start..].rotate_left(self.num_cols);
+        let drain = self.data.drain(self.data.len() - self.num_cols..);
         self.num_rows -= 1;
         if self.num_rows == 0 {
             self.num_cols = 0;
